@@ -119,3 +119,126 @@ def success_returns(fn, ok_values=(0,)):
         if r.c and r.c[0] is not None and r.c[0].cv in ok_values:
             out.append(r)
     return out
+
+
+# ---- a little path sensitivity: prune paths whose branch conditions contradict each other ----------
+def _tracked(fn):
+    """Scalar locals / parameters whose address is never taken: `name#decl`."""
+    taken = set()
+    for n in fn.body.walk():
+        if n.k == "UnaryOperator" and n.op == "&":
+            x = n.c[0].strip_casts()
+            if x.k == "DeclRefExpr":
+                taken.add(x.get("d"))
+    return taken
+
+
+def _var(n, taken):
+    x = n.strip_casts() if n is not None else None
+    if x is not None and x.k == "DeclRefExpr" and x.get("dk") in ("local", "param") and x.get("d") not in taken \
+            and "*" not in (x.t or "") and "[" not in (x.t or ""):
+        return x.get("d")
+    return None
+
+
+def _leaf(cond, truth):
+    """(node, truth) with logical negations folded into the truth value."""
+    c = cond.strip_casts()
+    while c is not None and c.k == "UnaryOperator" and c.op == "!":
+        truth = not truth
+        c = c.c[0].strip_casts()
+    return c, truth
+
+
+def _constraint(cond, truth, consts, taken):
+    """A branch outcome as (decl, 'pos', bool): the variable is > 0 (True) or <= 0 (False); or None."""
+    c, truth = _leaf(cond, truth)
+    if c is None or c.k != "BinaryOperator" or c.op not in ("<", "<=", ">", ">="):
+        return None
+    l, r = c.c[0], c.c[1]
+    lv, rv = _var(l, taken), _var(r, taken)
+    lc = l.cv if l.cv is not None else (consts.get(lv) if lv is not None else None)
+    rc = r.cv if r.cv is not None else (consts.get(rv) if rv is not None else None)
+    op = c.op
+    if rv is not None and lc is not None and rc is None:
+        # c OP V  ->  V OP' c
+        lv, rc = rv, lc
+        op = {"<": ">", "<=": ">=", ">": "<", ">=": "<="}[op]
+    elif not (lv is not None and rc is not None and lc is None):
+        return None
+    if not truth:
+        op = {"<": ">=", "<=": ">", ">": "<=", ">=": "<"}[op]
+    # V op rc
+    if op == ">" and rc >= 0 or op == ">=" and rc >= 1:
+        return (lv, True)
+    if op == "<=" and rc <= 0 or op == "<" and rc <= 1:
+        return (lv, False)
+    return None
+
+
+def find_feasible_path_avoiding(fn, is_event, is_target, start=None, cut_edge=None, cap=20000):
+    """find_path_avoiding, but a path is dropped as soon as one of its branch outcomes contradicts an
+    earlier one about the sign of an unmodified scalar local (`n > 0` false, later `i < n` true with
+    i == 0). Facts die when the variable is assigned. Returns (path or None, capped)."""
+    from ..util import is_assign
+    cfg = fn.cfg
+    taken = _tracked(fn)
+    if start is None:
+        start = (cfg.entry, 0)
+    seen = set()
+    stack = [(start[0], start[1], (start[0],), frozenset(), frozenset())]
+    steps = 0
+    while stack:
+        bid, idx, path, pos, consts = stack.pop()
+        key = (bid, idx, pos, consts)
+        if key in seen:
+            continue
+        seen.add(key)
+        steps += 1
+        if steps > cap:
+            return None, True
+        B = cfg.blocks[bid]
+        posd, constd = dict(pos), dict(consts)
+        blocked = False
+        for e in B.elems[idx:]:
+            if is_event(e):
+                blocked = True
+                break
+            if is_target(e):
+                return list(path), False
+            if e.k == "DeclStmt":
+                for d, init in zip(e.get("decls", []), e.c):
+                    if "d" in d:
+                        posd.pop(d["d"], None)
+                        constd.pop(d["d"], None)
+                        if init is not None and init.cv is not None and d["d"] not in taken:
+                            constd[d["d"]] = init.cv
+            elif is_assign(e) or (e.k == "UnaryOperator" and e.op in ("++", "--")):
+                v = _var(e.c[0], set())
+                if v is not None:
+                    posd.pop(v, None)
+                    constd.pop(v, None)
+                    if e.k == "BinaryOperator" and e.op == "=" and e.c[1].cv is not None and v not in taken:
+                        constd[v] = e.c[1].cv
+        if blocked:
+            continue
+        for si, s in enumerate(B.succs):
+            if s is None:
+                continue
+            if cut_edge is not None and cut_edge(B, si):
+                continue
+            p2 = posd
+            if B.cond is not None and B.tk != "SwitchStmt" and len(B.succs) == 2:
+                con = _constraint(B.cond, si == 0, constd, taken)
+                if con is not None:
+                    v, val = con
+                    if v in constd:
+                        if (constd[v] > 0) != val:
+                            continue            # contradicts the known constant
+                    elif v in posd and posd[v] != val:
+                        continue                # contradicts an earlier branch outcome
+                    else:
+                        p2 = dict(posd)
+                        p2[v] = val
+            stack.append((s, 0, path + (s,), frozenset(p2.items()), frozenset(constd.items())))
+    return None, False
